@@ -20,6 +20,8 @@ from numpy.typing import NDArray
 
 from nucs.constants import (
     LOG_LEVEL_INFO,
+    MAX,
+    MIN,
     NUMBA_DISABLE_JIT,
     PROBLEM_BOUND,
     PROBLEM_UNBOUND,
@@ -231,7 +233,18 @@ class BacktrackSolver(Solver):
                 variable_idx,
                 best_solution[variable_idx],
             )
+            if self.is_empty(variable_idx):  # no better value is left
+                break
         return best_solution
+
+    def is_empty(self, variable_idx: int) -> bool:
+        """
+        Returns true iff the domain of a variable is empty.
+        :param variable_idx: the index of the variable
+        :return: a boolean
+        """
+        shr_domain = self.shr_domains_stack[self.stacks_top[0], self.problem.dom_indices_arr[variable_idx]]
+        return bool(shr_domain[MIN] > shr_domain[MAX])
 
     def solve(self) -> Iterator[NDArray]:
         """
@@ -366,6 +379,8 @@ class BacktrackSolver(Solver):
                 variable_idx,
                 solution[variable_idx],
             )
+            if self.is_empty(variable_idx):  # no better value is left
+                break
         solution_queue.put((processor_idx, None, self.statistics))
 
     def solve_and_queue(self, processor_idx: int, solution_queue: Queue) -> None:
